@@ -224,6 +224,214 @@ fn put(out: &mut Vec<u8>, v: u64, n: usize, be: bool) {
     }
 }
 
+/// one CIE + one FDE (.debug_frame or .eh_frame) from abstract parameters
+#[allow(clippy::too_many_arguments)]
+fn frame_section(eh: bool, be: bool, asz: usize, version: u8, caf: u64, daf: i64, ra: u64, cie_insns: &[u8],
+                 initial: u64, range: u64, fde_insns: &[u8]) -> Vec<u8> {
+    let mut cie = Vec::new();
+    put(&mut cie, if eh { 0 } else { 0xffff_ffff }, 4, be);
+    cie.push(version);
+    cie.push(0); // augmentation ""
+    if version >= 4 && !eh {
+        cie.push(asz as u8);
+        cie.push(0);
+    }
+    uleb(caf, &mut cie);
+    sleb(daf, &mut cie);
+    if version == 1 {
+        cie.push(ra as u8);
+    } else {
+        uleb(ra, &mut cie);
+    }
+    cie.extend_from_slice(cie_insns);
+    while (cie.len() + 4) % asz != 0 {
+        cie.push(0);
+    }
+    let mut sec = Vec::new();
+    put(&mut sec, cie.len() as u64, 4, be);
+    sec.extend_from_slice(&cie);
+    let fde_start = sec.len();
+    let mut fde = Vec::new();
+    // CIE pointer: .debug_frame = offset of the CIE (0); .eh_frame = distance back to the CIE
+    put(&mut fde, if eh { (fde_start + 4) as u64 } else { 0 }, 4, be);
+    put(&mut fde, initial, asz, be);
+    put(&mut fde, range, asz, be);
+    fde.extend_from_slice(fde_insns);
+    while (fde.len() + 4) % asz != 0 {
+        fde.push(0);
+    }
+    put(&mut sec, fde.len() as u64, 4, be);
+    sec.extend_from_slice(&fde);
+    if eh {
+        put(&mut sec, 0, 4, be);
+    }
+    sec
+}
+
+/// `Debug` output without whitespace and without the `base_id` fields of the id types (a per-table counter in
+/// builds with debug assertions, `()` otherwise)
+fn canon_debug(s: &str) -> String {
+    let s: String = s.chars().filter(|c| !c.is_whitespace()).collect();
+    let mut out = String::new();
+    let mut rest = &s[..];
+    while let Some(k) = rest.find("base_id:") {
+        out.push_str(&rest[..k]);
+        let after = &rest[k..];
+        let end = after.find(',').map(|e| e + 1).unwrap_or(after.len());
+        rest = &after[end..];
+    }
+    out.push_str(rest);
+    out
+}
+/// the scalar after `key` (up to the next `,` or `}`)
+fn field_after(s: &str, key: &str) -> String {
+    match s.find(key) {
+        Some(k) => {
+            let r = &s[k + key.len()..];
+            let end = r.find(|c: char| c == ',' || c == '}').unwrap_or(r.len());
+            r[..end].to_string()
+        }
+        None => "?".into(),
+    }
+}
+/// the bracketed list after the first `key` at or after `from`; returns it and the position after it
+fn list_after(s: &str, key: &str, from: usize) -> (String, usize) {
+    let k = match s[from..].find(key) {
+        Some(k) => from + k + key.len(),
+        None => return ("?".into(), s.len()),
+    };
+    let b = s.as_bytes();
+    let mut depth = 0i32;
+    let mut j = k;
+    while j < b.len() {
+        match b[j] {
+            b'[' => depth += 1,
+            b']' => {
+                depth -= 1;
+                if depth == 0 {
+                    return (s[k..=j].to_string(), j + 1);
+                }
+            }
+            _ => {}
+        }
+        j += 1;
+    }
+    ("?".into(), s.len())
+}
+/// ConvertError with Read(e) / Write(e) flattened to the inner variant name
+fn cerr(e: &write::ConvertError) -> String {
+    let s = format!("{:?}", e);
+    if let Some(rest) = s.strip_prefix("Read(").or_else(|| s.strip_prefix("Write(")) {
+        let end = rest.find(|ch: char| ch == '(' || ch == '{' || ch == ' ' || ch == ')').unwrap_or(rest.len());
+        rest[..end].to_string()
+    } else {
+        errname(e)
+    }
+}
+/// the address conversion callbacks the streams use: 0 = constant; 1 = additionally None for 0xdead;
+/// 2 = additionally a symbol for addresses >= 2^31
+fn cvt_mode(mode: u64, a: u64) -> Option<Address> {
+    if mode >= 1 && a == 0xdead {
+        return None;
+    }
+    if mode >= 2 && a >= 0x8000_0000 {
+        return Some(Address::Symbol { symbol: 1, addend: (a - 0x8000_0000) as i64 });
+    }
+    Some(Address::Constant(a))
+}
+
+/// A unit of four DIEs — root (DW_TAG_compile_unit; DW_AT_low_pc when low_pc != 0; DW_AT_addr_base 8 in DWARF 5),
+/// two base types and a DIE carrying `attr` (name, form, data bytes) — converted up to the point where the
+/// ConvertUnit and its root entry are available.
+#[allow(clippy::too_many_arguments)]
+fn unit_sections(be: bool, asz: usize, version: u16, low_pc: u64, attr: &[(u64, u64, Vec<u8>, i64)], debug_addr: &[u8],
+                 lists: &[u8], debug_line: &[u8]) -> Secs {
+    // abbreviations
+    let mut abbrev: Vec<u8> = vec![1, 0x11, 1];
+    if low_pc != 0 {
+        abbrev.extend_from_slice(&[0x11, 0x01]);
+    }
+    if version >= 5 {
+        abbrev.extend_from_slice(&[0x73, 0x17]);
+    }
+    if !debug_line.is_empty() {
+        abbrev.extend_from_slice(&[0x10, if version >= 4 { 0x17 } else { 0x06 }]);
+    }
+    abbrev.extend_from_slice(&[0, 0]);
+    abbrev.extend_from_slice(&[2, 0x24, 0, 0x0b, 0x0b, 0, 0]);
+    abbrev.extend_from_slice(&[3, 0x34, 0]);
+    for (name, form, _, ic) in attr {
+        uleb(*name, &mut abbrev);
+        uleb(*form, &mut abbrev);
+        if *form == 0x21 {
+            sleb(*ic, &mut abbrev);
+        }
+    }
+    abbrev.extend_from_slice(&[0, 0, 0]);
+    // DIEs
+    let mut dies = vec![1u8];
+    if low_pc != 0 {
+        put(&mut dies, low_pc, asz, be);
+    }
+    if version >= 5 {
+        put(&mut dies, 8, 4, be);
+    }
+    if !debug_line.is_empty() {
+        put(&mut dies, 0, 4, be);
+    }
+    dies.extend_from_slice(&[2, 4, 2, 8, 3]);
+    for (_, _, data, _) in attr {
+        dies.extend_from_slice(data);
+    }
+    dies.push(0);
+    let mut unit = Vec::new();
+    put(&mut unit, u64::from(version), 2, be);
+    if version >= 5 {
+        unit.push(1);
+        unit.push(asz as u8);
+        put(&mut unit, 0, 4, be);
+    } else {
+        put(&mut unit, 0, 4, be);
+        unit.push(asz as u8);
+    }
+    unit.extend_from_slice(&dies);
+    let mut info = Vec::new();
+    put(&mut info, unit.len() as u64, 4, be);
+    info.extend_from_slice(&unit);
+    let mut secs = Secs::new();
+    secs.insert(SectionId::DebugInfo, info);
+    secs.insert(SectionId::DebugAbbrev, abbrev);
+    secs.insert(SectionId::DebugAddr, debug_addr.to_vec());
+    if version >= 5 {
+        secs.insert(SectionId::DebugRngLists, lists.to_vec());
+        secs.insert(SectionId::DebugLocLists, lists.to_vec());
+    } else {
+        secs.insert(SectionId::DebugRanges, lists.to_vec());
+        secs.insert(SectionId::DebugLoc, lists.to_vec());
+    }
+    secs.insert(SectionId::DebugLine, debug_line.to_vec());
+    secs
+}
+
+/// convert up to the point where the ConvertUnit and its root entry are available, then run the body
+macro_rules! with_unit {
+    ($secs:expr, $en:expr, $unit:ident, $root:ident, $body:block) => {{
+        let rd = load_dwarf(&$secs, $en);
+        let mut out = write::Dwarf::new();
+        let mut conv = match out.convert(&rd) {
+            Ok(c) => c,
+            Err(x) => return format!("setup-err convert:{}", cerr(&x)),
+        };
+        let r: String = match conv.read_unit() {
+            #[allow(unused_mut)]
+            Ok(Some((mut $unit, $root))) => $body,
+            Ok(None) => "setup-err no-unit".into(),
+            Err(x) => format!("setup-err read_unit:{}", cerr(&x)),
+        };
+        r
+    }};
+}
+
 pub fn run(t: &[&str]) -> String {
     dump::EMPTY_LINE_PROGRAM_IS_NOTHING.store(true, std::sync::atomic::Ordering::Relaxed);
     let r = run_inner(t);
@@ -385,43 +593,7 @@ fn run_inner(t: &[&str]) -> String {
             let initial = u(t[9]);
             let range = u(t[10]);
             let fde_insns = hex(t[11]);
-            let mut cie = Vec::new();
-            put(&mut cie, if eh { 0 } else { 0xffff_ffff }, 4, be);
-            cie.push(version);
-            cie.push(0); // augmentation ""
-            if version >= 4 && !eh {
-                cie.push(asz as u8);
-                cie.push(0);
-            }
-            uleb(caf, &mut cie);
-            sleb(daf, &mut cie);
-            if version == 1 {
-                cie.push(ra as u8);
-            } else {
-                uleb(ra, &mut cie);
-            }
-            cie.extend_from_slice(&cie_insns);
-            while (cie.len() + 4) % asz != 0 {
-                cie.push(0);
-            }
-            let mut sec = Vec::new();
-            put(&mut sec, cie.len() as u64, 4, be);
-            sec.extend_from_slice(&cie);
-            let fde_start = sec.len();
-            let mut fde = Vec::new();
-            // CIE pointer: .debug_frame = offset of the CIE (0); .eh_frame = distance back to the CIE
-            put(&mut fde, if eh { (fde_start + 4) as u64 } else { 0 }, 4, be);
-            put(&mut fde, initial, asz, be);
-            put(&mut fde, range, asz, be);
-            fde.extend_from_slice(&fde_insns);
-            while (fde.len() + 4) % asz != 0 {
-                fde.push(0);
-            }
-            put(&mut sec, fde.len() as u64, 4, be);
-            sec.extend_from_slice(&fde);
-            if eh {
-                put(&mut sec, 0, 4, be);
-            }
+            let sec = frame_section(eh, be, asz, version, caf, daf, ra, &cie_insns, initial, range, &fde_insns);
             cfi_roundtrip(eh, &sec, endian, asz as u8)
         }
         // c12.line <be> <asz> <version 2..4> <min_inst_len> <max_ops> <line_base> <line_range> <opcode_base> <program hex>
@@ -491,6 +663,177 @@ fn run_inner(t: &[&str]) -> String {
                 return format!("convert-mismatch {}", classes.join(","));
             }
             r
+        }
+        // ---- correspondence with the converter models (Model/Convert{Cfi,Expr,Lists,Attr}.v) ----
+        // c12.cficonv <be> <asz> <version> <caf> <daf> <cie-insns hex> <fde-insns hex>
+        // FrameTable::from on a one-CIE one-FDE .debug_frame; prints the converted instruction lists
+        "c12.cficonv" => {
+            let asz: usize = t[2].parse().unwrap();
+            let sec = frame_section(false, t[1] == "1", asz, t[3].parse().unwrap(), u(t[4]), i(t[5]), 16,
+                                    &hex(t[6]), 0x1000, 0x10000, &hex(t[7]));
+            let mut rd = gimli::DebugFrame::new(&sec, endian(t[1]));
+            rd.set_address_size(asz as u8);
+            match write::FrameTable::from(&rd, &|a| Some(Address::Constant(a))) {
+                Ok(tb) => {
+                    let d = canon_debug(&format!("{:?}", tb));
+                    let caf = field_after(&d, "code_alignment_factor:");
+                    let daf = field_after(&d, "data_alignment_factor:");
+                    let (cie, at) = list_after(&d, "instructions:", 0);
+                    let (fde, _) = list_after(&d, "instructions:", at);
+                    format!("ok {} {} {} {}", caf, daf, cie, fde)
+                }
+                Err(x) => format!("err {}", cerr(&x)),
+            }
+        }
+        // c12.exprconv cfi <be> <asz> <version> <addrmode> <expr hex>
+        //   Expression::from reached through DW_CFA_def_cfa_expression (no unit: addrx/constx unsupported, no references)
+        // c12.exprconv unit <be> <asz> <version> <addrmode> <debug_addr hex> <expr hex>
+        //   ConvertUnit::convert_expression in a unit with four DIEs (root, two base types, a variable)
+        "c12.exprconv" => {
+            let be = t[2] == "1";
+            let asz: usize = t[3].parse().unwrap();
+            let version: u16 = t[4].parse().unwrap();
+            let mode = u(t[5]);
+            if t[1] == "cfi" {
+                let expr = hex(t[6]);
+                let mut f = vec![0x0f];
+                uleb(expr.len() as u64, &mut f);
+                f.extend_from_slice(&expr);
+                let sec = frame_section(false, be, asz, version as u8, 1, 1, 16, &[], 0x1000, 0x10000, &f);
+                let mut rd = gimli::DebugFrame::new(&sec, endian(t[2]));
+                rd.set_address_size(asz as u8);
+                return match write::FrameTable::from(&rd, &|a| cvt_mode(mode, a)) {
+                    Ok(tb) => {
+                        let d = canon_debug(&format!("{:?}", tb));
+                        let (_, at) = list_after(&d, "instructions:", 0);
+                        let (fde, _) = list_after(&d, "instructions:", at);
+                        let (ops, _) = list_after(&fde, "operations:", 0);
+                        format!("ok {}", ops)
+                    }
+                    Err(x) => format!("err {}", cerr(&x)),
+                };
+            }
+            let debug_addr = hex(t[6]);
+            let expr = hex(t[7]);
+            let en = endian(t[2]);
+            let secs = unit_sections(be, asz, version, 0, &[], &debug_addr, &[], &[]);
+            with_unit!(secs, en, unit, root, {
+                let e = gimli::Expression(EndianSlice::new(&expr, en));
+                match unit.convert_expression(root.read_unit, e, &|a| cvt_mode(mode, a)) {
+                    Ok(x) => {
+                        let d = canon_debug(&format!("{:?}", x));
+                        let (ops, _) = list_after(&d, "operations:", 0);
+                        format!("ok {}", ops)
+                    }
+                    Err(x) => format!("err {}", cerr(&x)),
+                }
+            })
+        }
+        // c12.listconv rng|loc <be> <asz> <version> <addrmode> <low_pc> <debug_addr hex> <list section hex> <offset>
+        //   ConvertUnit::convert_range_list / convert_location_list (RangeList::from / LocationList::from)
+        "c12.listconv" => {
+            let be = t[2] == "1";
+            let asz: usize = t[3].parse().unwrap();
+            let version: u16 = t[4].parse().unwrap();
+            let mode = u(t[5]);
+            let low_pc = u(t[6]);
+            let debug_addr = hex(t[7]);
+            let lists = hex(t[8]);
+            let offset = u(t[9]) as usize;
+            let en = endian(t[2]);
+            let secs = unit_sections(be, asz, version, low_pc, &[], &debug_addr, &lists, &[]);
+            with_unit!(secs, en, unit, root, {
+                if t[1] == "rng" {
+                    match unit.convert_range_list(root.read_unit, gimli::RangeListsOffset(offset), &|a| cvt_mode(mode, a)) {
+                        Ok(l) => format!("ok {}", canon_debug(&format!("{:?}", l.0))),
+                        Err(x) => format!("err {}", cerr(&x)),
+                    }
+                } else {
+                    match unit.convert_location_list(root.read_unit, gimli::LocationListsOffset(offset), &|a| cvt_mode(mode, a)) {
+                        Ok(l) => format!("ok {}", canon_debug(&format!("{:?}", l.0))),
+                        Err(x) => format!("err {}", cerr(&x)),
+                    }
+                }
+            })
+        }
+        // c12.attrconv <be> <asz> <version> <addrmode> <files: comma list of file ids or -> <debug_addr hex> <name> <form> <ic> <data hex>
+        //   ConvertUnit::convert_attribute_value on the single attribute of the fourth DIE, after
+        //   set_line_program with the given source-index -> FileId table
+        "c12.attrconv" => {
+            let be = t[1] == "1";
+            let asz: usize = t[2].parse().unwrap();
+            let version: u16 = t[3].parse().unwrap();
+            let mode = u(t[4]);
+            let perm: Vec<usize> = if t[5] == "-" { vec![] } else { t[5].split(',').map(|x| x.parse().unwrap()).collect() };
+            let debug_addr = hex(t[6]);
+            let name = u(t[7]);
+            let form = u(t[8]);
+            let ic = i(t[9]);
+            let data = hex(t[10]);
+            let en = endian(t[1]);
+            let secs = unit_sections(be, asz, version, 0, &[(name, form, data, ic)], &debug_addr, &[], &[]);
+            with_unit!(secs, en, unit, root, {
+                // a line program with 8 distinct files: FileId(k) for k in 0..8
+                let enc = gimli::Encoding { format: gimli::Format::Dwarf32, version, address_size: asz as u8 };
+                let mut prog = write::LineProgram::new(enc, gimli::LineEncoding::default(),
+                    write::LineString::String(b"/w".to_vec()), None, write::LineString::String(b"f0".to_vec()), None);
+                let dir = prog.default_directory();
+                let mut ids = vec![prog.add_file(write::LineString::String(b"f0".to_vec()), dir, None)];
+                for k in 1..8 {
+                    ids.push(prog.add_file(write::LineString::String(format!("f{}", k).into_bytes()), dir, None));
+                }
+                let files: Vec<write::FileId> = perm.iter().map(|&k| ids[k]).collect();
+                unit.set_line_program(prog, files);
+                let mut entry = root;
+                let mut n = 0;
+                let mut res = String::from("setup-err no-entry");
+                loop {
+                    match unit.read_entry(&mut entry) {
+                        Ok(Some(_)) => {}
+                        Ok(None) => break,
+                        Err(x) => {
+                            res = format!("setup-err read_entry:{}", cerr(&x));
+                            break;
+                        }
+                    }
+                    n += 1;
+                    if n == 3 {
+                        // metadata attributes are removed by filter_attributes: read the DIE again without the filter
+                        let mut raw_entry = gimli::DebuggingInformationEntry::null();
+                        let unfiltered = if entry.attrs.is_empty() {
+                            match entry.read_unit.entries_raw(Some(entry.offset)) {
+                                Ok(mut raw) => raw.read_entry(&mut raw_entry).is_ok(),
+                                Err(_) => false,
+                            }
+                        } else {
+                            false
+                        };
+                        let first = if unfiltered { raw_entry.attrs.first() } else { entry.attrs.first() };
+                        res = match first {
+                            None => "setup-err no-attr".into(),
+                            Some(attr) => {
+                                use gimli::AttributeValue as V;
+                                let outside = attr.form() != gimli::DW_FORM_implicit_const
+                                    && matches!(attr.value(),
+                                        V::Exprloc(_) | V::UnitRef(_) | V::DebugInfoRef(_) | V::DebugLineRef(_)
+                                        | V::LocationListsRef(_) | V::DebugLocListsIndex(_) | V::RangeListsRef(_)
+                                        | V::DebugRngListsIndex(_) | V::DebugStrRef(_) | V::DebugStrOffsetsIndex(_)
+                                        | V::DebugLineStrRef(_));
+                                if outside {
+                                    "ok outside".into()
+                                } else {
+                                    match unit.convert_attribute_value(entry.read_unit, attr, &|a| cvt_mode(mode, a)) {
+                                        Ok(v) => format!("ok {}", canon_debug(&format!("{:?}", v))),
+                                        Err(x) => format!("err {}", cerr(&x)),
+                                    }
+                                }
+                            }
+                        };
+                        break;
+                    }
+                }
+                res
+            })
         }
         _ => format!("unknown-stream {}", t[0]),
     }
